@@ -133,6 +133,8 @@ def _memo(fn):
 def base_env(registry: Registry) -> dict:
     env = {
         "some": lambda x: x,
+        "ctx_of": lambda x: x,
+        "same": lambda a, b: a == b and (not isinstance(a, dict) or list(a) == list(b)),
         "forall": _forall, "exists": _exists, "implies": _implies, "keys": lambda d: list(d.keys()),
         "iff": lambda a, b: bool(a) == bool(b),
         "strip": lambda s: s.strip(),
